@@ -23,6 +23,7 @@ type Obligation struct {
 	Clause    string
 	Descr     string
 	ExpectSat bool // cover / canary: must NOT be unsat
+	VacuousSite bool // thorough tier: hypotheses at this site are unsatisfiable
 	// results
 	Status string // proved | refuted | unknown | trivial | covered | vacuous
 	Solver string
